@@ -1179,6 +1179,10 @@ impl<'a> Harness<'a> {
                 return Err(fail("gc:dropped-retained", format!("garbage collection dropped {} which policy `{}` requires to be retained", vsst::tables::show_entry(Some(d)), self.cfg.gc_policy)));
             }
         }
+        // no resurrection: a tombstone goes only together with everything it shadows
+        if let Some(msg) = crate::gcmodel::resurrection(before, after) {
+            return Err(fail("gc:resurrected", format!("garbage collection under policy `{}`: {msg}", self.cfg.gc_policy)));
+        }
         // never the entry that decides the current value of a key
         let mut newest: BTreeMap<&[u8], &Entry> = BTreeMap::new();
         for e in before.iter() {
